@@ -1,4 +1,5 @@
 from mindsdb_sql.parser.ast.base import ASTNode
+from mindsdb_sql.parser.ast.select.constant import Constant
 from mindsdb_sql.parser.utils import indent
 
 
@@ -69,7 +70,7 @@ class Show(ASTNode):
             in_str = ' ' + ' '.join(ar)
 
         modes_str = f' {" ".join(self.modes)}' if self.modes else ''
-        like_str = f" LIKE '{self.like}'" if self.like else ""
+        like_str = f" LIKE {Constant(self.like).to_string()}" if self.like else ""
         where_str = f' WHERE {str(self.where)}' if self.where else ''
 
         # custom commands
